@@ -436,7 +436,49 @@ def rule_fingerprint_is_a_hash(ctx: Ctx, rep: Report) -> None:
     rep.floor(rule, 2)
 
 
+_TEXT_PATH_SAMPLE = """
+def _derive_from_account(mxkey, branch, address_index):
+    return _derive(mxkey, f"m/{branch}/{address_index}", None)
+"""
+
+
+def _formatted_paths(fn: ast.AST) -> list[ast.Call]:
+    out = []
+    for c in own_nodes(fn):
+        if isinstance(c, ast.Call) and call_name(c) in ("_derive", "derive_", "derive", "derive_from_account_", "_derive_from_account") and len(c.args) >= 2:
+            p_ = c.args[1]
+            if (isinstance(p_, ast.JoinedStr) and any(isinstance(v, ast.FormattedValue) for v in p_.values)) or \
+                    (isinstance(p_, ast.BinOp) and isinstance(p_.op, ast.Mod) and isinstance(p_.left, ast.Constant) and isinstance(p_.left.value, str)) or \
+                    (isinstance(p_, ast.Call) and isinstance(p_.func, ast.Attribute) and p_.func.attr == "format"):
+                out.append(c)
+    return out
+
+
+def rule_steps_are_numbers_not_text(ctx: Ctx, rep: Report) -> None:
+    """C07.steps_are_numbers_not_text: a derivation step the library computes or is
+    handed as a number goes to the deriving function as a number -- a list
+    of indexes, which its reader holds to integers. Formatted into a text
+    path and parsed back, whatever prints with a slash, a quote or an `h` in
+    it (`Fraction(7, 2)` is "7/2") is other steps than the caller gave."""
+    from sa.loader import _set_parents
+    rule = "C07.steps_are_numbers_not_text"
+    sample = ast.parse(_TEXT_PATH_SAMPLE)
+    _set_parents(sample)
+    rep.ob(rule, "selftest:sample", len(_formatted_paths(sample.body[0])) == 1, "rules/C07.py:1", "the detector fires on its own sample (expected count on the tree is zero)")
+    n = 0
+    for q, fi in sorted(ctx.prog.functions.items()):
+        if not q.startswith(("btclib.bip32.", "btclib.wallet.", "btclib.bip44", "btclib.descriptors.")):
+            continue
+        n += 1
+        for c in _formatted_paths(fi.node):
+            rep.ob(rule, f"{q}:{norm(c.args[1])[:40]}", False, fi.where(c), f"`{norm(c)[:70]}` prints numbers into a path for the parser to read back: a value that prints with a separator in it is derived as other steps")
+    rep.ob(rule, "scanned", True, "btclib:1", f"{n} functions")
+    rep.floor(rule, 2)
+
+
 RULES = [
+    ("C07.steps_are_numbers_not_text", rule_steps_are_numbers_not_text),
+
     ("C07.fingerprint_is_a_hash", rule_fingerprint_is_a_hash),
 
     ("C07.hashable_membership", rule_hashable_membership_),
